@@ -216,7 +216,10 @@ def tiny_trainer(root_dir: str, max_epochs: int, rl4co_trainer: bool = False):
     if rl4co_trainer:
         from rl4co.utils.trainer import RL4COTrainer
 
-        return RL4COTrainer(devices=1, precision="32-true", **common)
+        # matmul_precision / profiling-executor switches are process-global: leave them alone so that a
+        # run does not depend on what ran before it in the same worker
+        return RL4COTrainer(devices=1, precision="32-true", matmul_precision=None,
+                            disable_profiling_executor=False, **common)
     import lightning as L
 
     return L.Trainer(reload_dataloaders_every_n_epochs=1, **common)
